@@ -111,6 +111,13 @@ func c14Kinds() []c14Kind {
 		{Name: "400", Must: true, Reply: st(400, "application/json", `{"error":"invalid_request"}`)},
 		{Name: "401-json-error", Must: true, Reply: st(401, "application/json", `{"error":"invalid_client","error_description":"client authentication failed"}`)},
 		{Name: "503-html", Must: true, Reply: st(503, "text/html", `<html><body><h1>503 Service Unavailable</h1></body></html>`)},
+		{Name: "error-status-with-valid-body", Must: true, Reply: func(pos string, cx *c14Ctx) *vfIdPReply {
+			st := 500
+			if pos == "userinfo" {
+				st = 403
+			}
+			return &vfIdPReply{Status: st, ContentType: "application/json", Body: c14GenuineBody(pos, cx, false)}
+		}},
 		{Name: "reset", Must: true, Reply: func(string, *c14Ctx) *vfIdPReply { return &vfIdPReply{Reset: true} }},
 		{Name: "stall-then-reset", Must: true, Heavy: true, Reply: func(string, *c14Ctx) *vfIdPReply { return &vfIdPReply{Reset: true, Stall: 1500 * time.Millisecond} }},
 		{Name: "stall-then-500", Must: true, Heavy: true, Reply: func(string, *c14Ctx) *vfIdPReply {
@@ -483,6 +490,13 @@ func (r *c14Runner) cleanLogin(cw *c14World, p *vfProxy, c c14Case, steps []stri
 	_, cb, err := b.Login(p, id, "/")
 	r.run.Count("clean_logins", 1)
 	if err != nil {
+		// "stuck" means it stays broken: one more attempt
+		r.run.Count("clean_login_second_attempts", 1)
+		time.Sleep(10 * time.Millisecond)
+		b = vfNewBrowser("")
+		_, cb, err = b.Login(p, id, "/")
+	}
+	if err != nil {
 		code, pan := 0, ""
 		if cb != nil {
 			code, pan = cb.Code, cb.Panic
@@ -739,8 +753,16 @@ func (r *c14Runner) bearerCase(cw *c14World, c c14Case) {
 	}
 	if c.kind != nil {
 		// liveness: the same token once the key set can be fetched
-		o2 := cw.observe(send)
-		steps = append(steps, "fault removed, same request again")
+		// (bounded retries: go-oidc hands the result of a just-finished key-set fetch to callers arriving within
+		// microseconds of its completion; "stuck" means it stays refused)
+		var o2 c14Obs
+		for try := 0; try < 3; try++ {
+			if o2 = cw.observe(send); o2.UserinfoCode == 200 && o2.UpHit {
+				break
+			}
+			time.Sleep(10 * time.Millisecond)
+		}
+		steps = append(steps, "fault removed, same request again (up to 3 times)")
 		if !o2.session() || o2.Email != sub+"@tok.test" {
 			r.violation("c14:stuck-after-fault:bearer", fmt.Sprintf("after the key-set fault was removed the (valid) bearer token is still refused (userinfo %d)", o2.UserinfoCode), cw, p, c, fired, steps, o2, decoded)
 		}
@@ -758,18 +780,27 @@ func (cw *c14World) makeStale(t testing.TB, store string, shortLived bool) *c14S
 	st := &c14Stale{b: vfNewBrowser(""), sub: sub, email: sub + "@tok.test"}
 	id := vfIdentity{Sub: sub, Email: st.email, PreferredUsername: "pu-" + sub, Groups: []string{"g1"}}
 	id.Profile = map[string]interface{}{"sub": "profile-" + sub, "email": "profile-" + sub + "@profile.test", "preferred_username": "profile-pu-" + sub}
-	if shortLived {
-		st.expiresAt = time.Now().Add(3 * time.Second)
-	}
-	exp := st.expiresAt.Unix()
-	cw.w.IdP.Set(func(c *vfIdPCfg) {
-		c.MutateIDClaims = func(grant string, ar *vfAuthReq, claims map[string]interface{}) {
-			if grant == "code" && shortLived {
-				claims["exp"] = exp
-			}
+	// short-lived: the ID token must still be valid while the login runs and expired when the case probes it;
+	// on a loaded machine a login can take seconds, so the lifetime is doubled until the login gets through
+	var err error
+	for ttl := 4 * time.Second; ttl <= 64*time.Second; ttl *= 2 {
+		if shortLived {
+			st.expiresAt = time.Now().Add(ttl)
 		}
-	})
-	if _, _, err := st.b.Login(p, id, "/"); err != nil {
+		exp := st.expiresAt.Unix()
+		cw.w.IdP.Set(func(c *vfIdPCfg) {
+			c.MutateIDClaims = func(grant string, ar *vfAuthReq, claims map[string]interface{}) {
+				if grant == "code" && shortLived {
+					claims["exp"] = exp
+				}
+			}
+		})
+		st.b = vfNewBrowser("")
+		if _, _, err = st.b.Login(p, id, "/"); err == nil || !shortLived {
+			break
+		}
+	}
+	if err != nil {
 		t.Fatalf("c14: login for a stale session: %v", err)
 	}
 	st.idToken, st.at = cw.lastTokens()
@@ -859,6 +890,12 @@ func (r *c14Runner) refreshCase(cw *c14World, c c14Case) {
 		run.Count("fault_position_not_reached", 1)
 	}
 	must := (c.kind != nil && c.kind.Must) || (c.typed != nil && c.typed.Must)
+	if c.Pos == "userinfo" && strings.HasPrefix(c.Kind, "json-") {
+		// a well-formed profile answer without data next to a valid, signed refresh grant: the refresh may stand,
+		// the session then keeps its previous e-mail (providers/oidc.go documents this) — what it may never have is an empty one
+		must = false
+	}
+	emptyEmail := func(o c14Obs) bool { return (o.UserinfoCode == 200 && o.Email == "") || (o.UpHit && o.UpEmail == "") }
 	isOld := func(o c14Obs) bool {
 		return (o.UserinfoCode != 200 || (o.Email == st.email && o.User == st.sub)) && (!o.UpHit || (o.UpEmail == st.email && o.UpIDToken == st.idToken && o.UpAT == st.at))
 	}
@@ -873,9 +910,14 @@ func (r *c14Runner) refreshCase(cw *c14World, c c14Case) {
 		r.violation("c14:panic", "panic: "+vfTrunc(obs.Panic, 300), cw, p, c, fired, steps, rep, claims)
 	case !obs.session():
 		run.Count("refresh_outcome_signed_out", 1)
-		if fired > 0 && must && keys1 > keys0 {
+		if fired > 0 && must && len(obs.Cookies) > 0 {
+			r.violation("c14:session-cookie-issued-by-faulted-refresh", fmt.Sprintf("the user ends up signed out, but on the way the response SET session cookie(s) %v built from the faulted conversation (a client keeping it holds a session)", obs.Cookies), cw, p, c, fired, steps, rep, claims)
+		} else if fired > 0 && must && keys1 > keys0 {
 			r.violation("c14:store-write-after-faulted-conversation", fmt.Sprintf("Redis holds %d keys after the faulted refresh, %d before", keys1, keys0), cw, p, c, fired, steps, rep, claims)
 		}
+	case obs.session() && emptyEmail(obs) && (claims == nil || claims["email"] == nil):
+		// the refreshed ID token has no e-mail claim and the profile endpoint yields none either
+		r.violation("c14:refresh-adopts-session-without-email", fmt.Sprintf("the refreshed ID token carries no e-mail and the profile endpoint gave none (%s: %q): the session is served/saved with an EMPTY e-mail (user %q; the login callback refuses the same input)", c.Pos, c.Kind, obs.User), cw, p, c, fired, steps, rep, claims)
 	case fired > 0 && must && !isOld(obs):
 		r.violation("c14:session-changed-by-faulted-refresh", fmt.Sprintf("after the faulted refresh the session is no longer the old one (e-mail %q/%q, old e-mail %q; old id_token kept: %v; old access token kept: %v)", obs.Email, obs.UpEmail, st.email, obs.UpIDToken == st.idToken, obs.UpAT == st.at), cw, p, c, fired, steps, rep, claims)
 	case fired > 0 && must:
@@ -1114,12 +1156,18 @@ func TestVerif_C14(t *testing.T) {
 				r.bearerCase(cw, c)
 			case "refresh", "refresh-typed-claims", "refresh-old-token-expired":
 				r.refreshCase(cw, c)
-			case "startup":
-				r.startupCase(cw, c)
 			}
 			cw.w.Up.Reset()
 		}
 	})
+	// phase 3: start-up discovery faults, one at a time (building an instance excludes all request serving)
+	for i := range worlds {
+		for _, c := range per[i] {
+			if c.Flow == "startup" {
+				r.startupCase(worlds[i], c)
+			}
+		}
+	}
 	if run.Counter("clean_logins") < 50 {
 		run.Inconclusive("too few clean logins")
 	}
